@@ -166,6 +166,12 @@ def r3(ctx, facts):
                 continue
             ok = cmp_truth(state, "Gt", e, last) == 1
             r.instance("exit:clock-reading", ok, "returns %s; needs the region where it is strictly greater than `last`; state: %s" % (df.fmt_expr(e), df.fmt_state(state)), span)
+    # a return value produced directly by a call (`return u_cur.max(last)`) is an exit too: it is neither `last + c` nor a
+    # clock reading known to exceed `last`
+    for bb, c in b.calls():
+        if bb in b.live_blocks and c.dest[0] == 0 and not c.dest[1]:
+            n += 1
+            r.fail("exit:unknown-expression", "compute_next returns the result of %s(..): neither `last + c` nor the clock reading in the `reading > last` region (e.g. max(reading, last) repeats `last`)" % fn_short(c.name or "?"), c.span)
     if n == 0:
         raise AnchorLost("compute_next never assigns its return place")
 
